@@ -166,6 +166,21 @@ def rule_n4(repo, col):
     for c in calls:
         a = norm(c.args[0]) if c.args else ""
         col.decide("N4", m, c, a in ("cycle", "to_cycle_root"), "notifies the detected cycle", "notify_cycle is given %s instead of the detected cycle" % a)
+    # ... and the whole of it: the notified names are bound once, to the result of engine.find_cycle, and never cut down afterwards
+    for nm in ("cycle", "to_cycle_root"):
+        defs = [st for st in walk_no_nested(f.node) if isinstance(st, (ast.Assign, ast.AugAssign)) and any(isinstance(t_, ast.Name) and t_.id == nm
+                for t_ in (st.targets if isinstance(st, ast.Assign) else [st.target]))]
+        muts = [c_ for c_ in walk_no_nested(f.node) if isinstance(c_, ast.Call) and isinstance(c_.func, ast.Attribute) and norm(c_.func.value) == nm
+                and c_.func.attr in ("pop", "remove", "clear", "__delitem__")] + [d_ for d_ in walk_no_nested(f.node) if isinstance(d_, ast.Delete) and any(nm in norm(t_) for t_ in d_.targets)]
+        if not defs:
+            continue
+        full = [st for st in defs if isinstance(st, ast.Assign) and isinstance(st.value, ast.Call) and dotted(st.value.func) == "self.engine.find_cycle"]
+        cut = [st for st in defs if st not in full] + muts
+        col.decide("N4", m, cut[0] if cut else full[0], bool(full) and not cut, "`%s` is the complete result of engine.find_cycle when it is notified" % nm,
+                   "cycleDetected re-binds or shortens `%s` (%s) before it is passed to notify_cycle: the nodes dropped from the list - possibly negation nodes below the old cycle root - "
+                   "are never asked to createCycle, so a cycle through negation is not reported (NegativeCycle is not raised) and a probability is returned for a program without a "
+                   "two-valued well-founded model" % (nm, norm(cut[0])[:70] if cut else "no find_cycle binding"),
+                   construct="cycleDetected: `%s` cut down before notify_cycle" % nm, function="EvalDefine.cycleDetected")
     # sub-cycle branch
     sub = [n for n in g.stmt_nodes() if n.kind == "test" and norm(n.ast) == "cycle_parent.pointer != self.engine.cycle_root.pointer"]
     if len(sub) != 1:
